@@ -32,10 +32,16 @@ def _val_for(rng, elem):
         return rng.choice([0, 1, 2, 3, 4, 0, 1, 2, 5, 6, 7, rng.randrange(5, 1 << 40)])
     if elem == "pod":
         return rng.randrange(16) if rng.random() < 0.9 else rng.randrange(1 << 30)
+    if elem == "bag":             # code = len * 2^32 + sum
+        return (rng.randrange(6) << 32) | rng.randrange(100)
     return _val(rng)
 
+def _bag_args(rng):
+    """(n, x) for emplace_back(n, x): T(n, x) = n copies of x, T{n, x} = the two elements n and x"""
+    return rng.choice([0, 1, 3, 4, 5, 7]), rng.choice([0, 1, 3, 9, 20, 1000])
+
 def gen_vec(rng, n_ops, elem=None, cont="vec", small_n=None):
-    elem = elem or rng.choice(ELEMS + (["dbl", "pod"] if cont == "vec" else []))
+    elem = elem or rng.choice(ELEMS + ["a64", "bag"] + (["dbl", "pod"] if cont == "vec" else []))
     copy_ok = elem != "mo"
     hdr = "type %s %s" % (cont, elem) + (" %d" % small_n if cont == "sv" else "")
     sim = _VecSim(small_n if cont == "sv" else None)
@@ -53,8 +59,11 @@ def gen_vec(rng, n_ops, elem=None, cont="vec", small_n=None):
              "resize": dict(push=1, pop=1, resize=6, obs=1, whole=1, clear=0.3)}[phase]
         k = rng.choices(list(w), list(w.values()))[0]
         if k == "push":
-            o = rng.choice((["push"] if copy_ok else []) + ["pushm", "emplace"])
-            lines.append("%s %d %d" % (o, r, _val_for(rng, elem)))
+            o = rng.choice((["push"] if copy_ok else []) + ["pushm", "emplace"] + (["emplace2"] * 4 if elem == "bag" else []))
+            if o == "emplace2":
+                lines.append("emplace2 %d %d %d" % ((r,) + _bag_args(rng)))
+            else:
+                lines.append("%s %d %d" % (o, r, _val_for(rng, elem)))
             sim.ensure(r, sim.size[r] + 1); sim.size[r] += 1
         elif k == "pop":
             if sim.size[r] == 0 and rng.random() < 0.97:
@@ -65,7 +74,9 @@ def gen_vec(rng, n_ops, elem=None, cont="vec", small_n=None):
             sim.size[r] -= 1
         elif k == "resize":
             n = rng.choice(sim.targets(r))
-            if copy_ok and rng.random() < 0.5:
+            if elem == "bag" and rng.random() < 0.4:
+                lines.append("resize2 %d %d %d %d" % ((r, n) + _bag_args(rng)))
+            elif copy_ok and rng.random() < 0.5:
                 lines.append("resizev %d %d %d" % (r, n, _val_for(rng, elem)))
             else:
                 lines.append("resize %d %d" % (r, n))
@@ -145,14 +156,18 @@ def gen_dyn(rng, n_ops, elem=None):
     return lines
 
 def gen_stack(rng, n_ops, elem=None):
-    elem = elem or rng.choice(ELEMS)
+    elem = elem or rng.choice(ELEMS + ["bag"])
     lines = ["type stack %s" % elem]
     size = 0
     bias = rng.choice([0.5, 0.65, 0.8])
     for _ in range(n_ops):
         x = rng.random()
         if x < bias:
-            lines.append("%s %d" % (rng.choice(["emplace"] + (["push"] if elem != "mo" else [])), _val(rng))); size += 1
+            if elem == "bag" and rng.random() < 0.6:
+                lines.append("emplace2 %d %d" % _bag_args(rng))
+            else:
+                lines.append("%s %d" % (rng.choice(["emplace"] + (["push"] if elem != "mo" else [])), _val_for(rng, elem)))
+            size += 1
         elif x < bias + 0.1:
             if size:
                 lines.append("top")
@@ -166,14 +181,18 @@ def gen_stack(rng, n_ops, elem=None):
     return lines
 
 def gen_list(rng, n_ops, elem=None):
-    elem = elem or rng.choice(ELEMS)
+    elem = elem or rng.choice(ELEMS + ["bag"])
     lines = ["type list %s" % elem]
     size = 0
     bias = rng.choice([0.4, 0.55, 0.7])
     for _ in range(n_ops):
         x = rng.random()
         if x < bias:
-            lines.append("emplace %d" % _val(rng)); size += 1
+            if elem == "bag" and rng.random() < 0.6:
+                lines.append("emplace2 %d %d" % _bag_args(rng))
+            else:
+                lines.append("emplace %d" % _val_for(rng, elem))
+            size += 1
         elif x < bias + 0.1:
             lines.append("empty")
         elif x < bias + 0.2:
@@ -290,6 +309,15 @@ def corpus():
     cs.append(("corpus-eq-double", ["type vec dbl", "push 0 0", "push 1 1", "eq 0 1", "push 0 2", "assign 1 0", "eq 0 1", "eq 1 0", "eq 0 0",
                                     "clear 0", "clear 1", "push 0 3", "push 1 4", "eq 0 1", "push 2 7", "assign 0 2", "eq 0 2"]))
     cs.append(("corpus-eq-pod", ["type vec pod", "push 0 5", "push 1 6", "eq 0 1", "push 0 9", "push 1 13", "eq 0 1", "assign 2 0", "eq 2 0", "push 2 1", "eq 2 0"]))
+    # forwarded constructor arguments: emplace_back(n, x) / resize(k, n, x) / stack::emplace(n, x) store T(n, x), not T{n, x}
+    cs.append(("corpus-emplace-args-vec", ["type vec bag", "emplace2 0 3 9", "emplace2 0 0 5", "resize2 0 4 5 1", "idx 0 0", "idx 0 3", "emplace2 1 7 1000", "swap 0 1"]))
+    cs.append(("corpus-emplace-args-sv", ["type sv bag 2", "emplace2 0 3 9", "emplace2 0 4 1", "emplace2 0 5 20", "resize2 0 7 1 3", "back 0", "mctor 1 0", "emplace2 1 3 3"]))
+    cs.append(("corpus-emplace-args-stack", ["type stack bag", "emplace2 3 9", "top", "emplace2 5 0", "top", "pop", "top"]))
+    cs.append(("corpus-emplace-args-list", ["type list bag", "emplace2 3 9", "front", "emplace2 4 20", "pop", "front"]))
+    # over-aligned element type (alignas(64)): inline storage, heap blocks, both sides of the boundary
+    cs.append(("corpus-overaligned-sv", ["type sv a64 2", "push 0 1", "emplace 1 2", "pushm 2 3", "push 0 4", "push 0 5", "swap 0 1", "cctor 2 0", "resize 1 1", "pop 0", "mctor 0 2", "resizev 2 5 9"]))
+    cs.append(("corpus-overaligned-sv4", ["type sv a64 4", "push 1 1", "push 1 2", "swap 1 2", "push 0 3", "cctor 1 0"] + ["pushm 2 %d" % i for i in range(6)] + ["resize 2 3", "swap 2 0"]))
+    cs.append(("corpus-overaligned-vec", ["type vec a64", "push 0 1", "push 0 2", "push 0 3", "assign 1 0", "pop 1", "resize 1 9", "massign 2 1", "swap 0 2", "eq 0 2"]))
     # container variables on different allocator instances: the allocator travels with the heap block
     cs.append(("corpus-alloc-instances-sv", ["type sv tv 2", "push 0 1", "push 0 2", "push 0 3", "push 1 7", "swap 0 1", "push 1 4", "push 1 5", "push 1 6", "push 1 8",
                                              "push 0 9", "push 0 10", "push 0 11", "mctor 2 0", "swap 2 1"]))
